@@ -330,3 +330,27 @@ Theorem C14_ow_elements_reflect_last_read : forall st mem o, os_pending st = fal
   os_hdr (fst (fst (ow_update st mem))) = Some (ow_pins o, ow_vid o, ow_pid o).
 Proof. exact ow_elems_last_read. Qed.
 Print Assumptions C14_ow_elements_reflect_last_read.
+
+(* ------------------------------------------------------------------ write histories of the write-only images
+   In the model the trajectory pieces, the timing list and the LED objects are their fields and nothing else:
+   pack() / write_data() is a function of the CURRENT field values.  Consequently *)
+
+(* the k-th write_data of any history through one TrajectoryMemory (same or other piece objects, any start
+   address, any earlier writes) hands over exactly the image of the pieces it is given, at its start address,
+   and returns its length *)
+Theorem C14_layout_write_history_stateless : forall h1 w h2,
+  nth (length h1) (traj_history (h1 ++ w :: h2)) None = traj_write (fst w) (snd w).
+Proof. exact traj_history_stateless. Qed.
+Print Assumptions C14_layout_write_history_stateless.
+
+Theorem C14_layout_trajectory_write : forall start l a img n, traj_write start l = Some (a, img, n) ->
+  a = start /\ n = Z.of_nat (length img) /\ traj_image l = Some img.
+Proof. exact traj_write_shape. Qed.
+Print Assumptions C14_layout_trajectory_write.
+
+(* a whole compressed trajectory body: the firmware-side walk over the image recovers every segment of the
+   list, in order, with all coefficients, and ends exactly at the end of the image *)
+Theorem C14_layout_compressed_trajectory : forall segs img rest, traj_image (map seg_of segs) = Some img ->
+  csegs_read (length segs) (img ++ rest) = (segs, rest).
+Proof. exact csegs_layout. Qed.
+Print Assumptions C14_layout_compressed_trajectory.
